@@ -124,6 +124,11 @@ def _gen_cases(tier, seed):
     for shp in wide:
         for ukind in ("list", "ktensor"):
             yield C(w="mttkrps", shape=list(shp), ukind=ukind, R=int(rng.integers(2, 4)))
+    # one long, almost empty mode: fewer stored entries than half its length, several of them sharing an index of that mode (the
+    # products landing on one output position are summed)
+    for shp in ((8, 2, 2), (2, 9, 2), (2, 2, 10), (12, 2), (3, 14), (2, 2, 2, 9)):
+        for rep in range(1 if tier == "quick" else 4):
+            yield C(w="longsparse", shape=list(shp), nnz=int(rng.integers(2, max(3, max(shp) // 2) + 1)))
     # ttt
     reps = 1 if tier == "quick" else 6
     for _ in range(reps):
@@ -506,6 +511,55 @@ def _w_zero_norm(case, ctx, rng, shape, N):
     if ok:
         ctx.check(np.ndim(got) == 0 and np.isfinite(float(got)) and 0.0 <= float(got) <= 1e-6 * scale, op, "WRONG",
                   f"norm of a tensor that denotes zero (parts of size {scale:.3g}): {got!r}")
+
+
+def _w_longsparse(case, ctx, rng, shape, N):
+    L = int(np.argmax(shape))
+    others = [d for d in range(N) if d != L]
+    A = np.zeros(shape)
+    k = case["nnz"]
+    # k entries on at most k - 1 distinct positions of the long mode (at least two share one)
+    pos = [int(x) for x in rng.choice(shape[L], size=max(1, k - 1), replace=False)]
+    pos.append(pos[0])
+    seen = set()
+    for j in pos[:k]:
+        for _try_ in range(20):
+            idx = [int(rng.integers(0, s_)) for s_ in shape]
+            idx[L] = j
+            if tuple(idx) not in seen:
+                seen.add(tuple(idx))
+                A[tuple(idx)] = float(rng.choice([1.0, 2.0, -1.5, 3.0, 0.5]))
+                break
+    nnz = int(np.count_nonzero(A))
+    ctx.feat(nnzc=_nnzc(A), long_mode=L, few=bool(nnz <= shape[L] // 2))
+    S = gen.mk_sptensor(ttb, A, gen.stored_order(rng, nnz, "shuffled"))
+    T = ttb.tensor(A.copy())
+    vecs = [gen.normals(rng, (shape[d],)) for d in others]
+    want = refops.ttv(A, vecs, others)
+    for name, X in (("tensor", T), ("sptensor", S)):
+        got, ok = _try(ctx, f"{name}.ttv", X.ttv, [v.copy() for v in vecs], np.array(others), _feat={"holder": name})
+        if ok:
+            _compare(ctx, f"{name}.ttv", got, want, name)
+    R = 2
+    U = [gen.normals(rng, (s_, R)) for s_ in shape]
+    for n in (L, others[0]):
+        wantm = refops.mttkrp(A, U, n)
+        for name, X in (("tensor", T), ("sptensor", S)):
+            got, ok = _try(ctx, f"{name}.mttkrp", X.mttkrp, [u.copy() for u in U], n, _feat={"holder": name})
+            if ok:
+                _compare(ctx, f"{name}.mttkrp", got, wantm, name)
+    # the same sparse array as the core of a Tucker tensor
+    fm = [gen.normals(rng, (int(rng.integers(1, 4)), s_)) for s_ in shape]
+    TT = ttb.ttensor(gen.mk_sptensor(ttb, A, gen.stored_order(rng, nnz, "shuffled")), [f.copy() for f in fm])
+    At = denote(TT)
+    tv = [gen.normals(rng, (f.shape[0],)) for f in fm]
+    got, ok = _try(ctx, "ttensor.ttv", TT.ttv, [tv[d].copy() for d in others], np.array(others), _feat={"holder": "ttensor(sparse core)"})
+    if ok:
+        _compare(ctx, "ttensor.ttv", got, refops.ttv(At, [tv[d] for d in others], others), "ttensor")
+    Ut = [gen.normals(rng, (f.shape[0], R)) for f in fm]
+    got, ok = _try(ctx, "ttensor.mttkrp", TT.mttkrp, [u.copy() for u in Ut], L, _feat={"holder": "ttensor(sparse core)"})
+    if ok:
+        _compare(ctx, "ttensor.mttkrp", got, refops.mttkrp(At, Ut, L), "ttensor")
 
 
 def _w_contract(case, ctx, rng, shape, N):
